@@ -44,7 +44,7 @@ CLAIMED = {
 
  "C02": {
   "text": "Gate-by-precondition over the real text of SendBlocksProofProcess::{execute, execute_internally}, SendTransactionsProofProcess::{execute, execute_internally}, verify_extra_hash, BlocksProofRequest::check_block_hashes, TransactionsProofRequest::check_tx_hashes (iff against 'response == request'), verify_mmr_proof: a matched block is flagged proved, a header is stored as fetched, a transaction is stored as fetched, and hashes are reported not_found only under evidence whose introduction rules are the property's conjunction (response's last header is the one the request named and commits to its chain root; valid MMR proof binds the returned headers; PoW valid; v1 extension committed by the extra hash; CBMT proof + witnesses root reproduce the header's transactions root for the shipped transactions; the response answers the outstanding request; the hash was requested). Verus proves every path reaching a writer carries it.",
-  "note": "Partial: the SendBlock body path (SyncProtocol) is not under contract (named in evidence). Crypto functions uninterpreted; readers/storage/peer table are shims.",
+  "note": "The SendBlock arm of SyncProtocol::received is under contract too (unit sync_block): a block body is accepted only if the roots in its received header equal the roots computed from the body, and only such blocks with a proved entry reach filter_block. Crypto functions uninterpreted; readers/storage/peer table are shims.",
   "ref": "DESIGN.md 5-C02"},
 
  "C06": {
